@@ -82,7 +82,7 @@ def _run_impl(gd: GDef, cfg: dict, opts: dict, starts=None, stop=None, limit_s=6
     # internal consistency of hashes with stored layers (same hasher)
     hs_ok = True
     for i, h in enumerate(r.layers_hashes):
-        if i in r.layers:
+        if i in r.layers and len(r.layers[i]) > 0:
             want = graph.hasher.make_hashes(graph.encode_states(r.layers[i]))
             if sorted(want.tolist()) != sorted(h.tolist()):
                 hs_ok = False
